@@ -304,7 +304,7 @@ def configs(rnd, quick):
     fixed = fixed + [w for d in fixed for w in pv.variants(d) if "Supports" not in w] + [
         ["DUnion", [["DEnum", [["PNone"]]], ["DInt"]]], ["DUnion", [["DStr"], ["DEnum", [["PNone"]]]]]]
     rand = []
-    for _ in range(80 if quick else 900):
+    for _ in range(80 if quick else 760):
         d = pv.gen_desc(rnd, 3)
         if rnd.random() < 0.3:
             d = ["DUnion", [d, rnd.choice(pv.STRINGS + pv.int_ranges() + pv.SIMPLE_FAST)]]
@@ -316,7 +316,7 @@ def gen_cases(ctx, rnd):
     quick = ctx.tier == "quick"
     cases = corpus()
     fixed, rand = configs(rnd, quick)
-    per_fixed, per_rand, maxlen = (7, 5, 4) if quick else (90, 15, 8)
+    per_fixed, per_rand, maxlen = (7, 5, 4) if quick else (80, 15, 8)
     # every fixed configuration meets the key atoms once (None, bool, int, float, NaN, str, tuple, instance, class, ...)
     key_atoms = [["PNone"], ["PBool", True], ["PInt", 1], ["PFloat", pv.F(0.5)], ["PFloat", pv.NAN], pv.S("a"),
                  ["PTuple", [["PInt", 1], ["PInt", 2]]], ["PObj", 100, 1], ["PType", 100], ["PCallable", 1],
